@@ -34,7 +34,8 @@
      precedes the start of its head update.)  Contributions to plain relations: the same, with reads anywhere in
      the schedule.  This is what makes the model well founded: a value can only be observed after contributions
      derived from earlier observations have been joined.  (A model that only bounds an observed value by the value
-     at the END of the iteration is unsound: with the rule x(v) <-- x(v) the contribution x(5) would justify itself.)
+     at the END of the iteration is unsound: with the rule x(v) <-- x(v) a contribution justifies itself through its
+     own join - LatParCausality.acausal_run_not_least.)
    - [exhaustive]: every variant that is not skipped by the any-relation-empty test has been evaluated completely
      ([covers]): for EVERY row number of the index version a clause reads, the row was read with some value it had
      during the iteration and, when it matched, the rest of the body was evaluated under the extended environment
